@@ -23,6 +23,7 @@ func init() {
 	register(&Prop{
 		ID: "C14",
 		Rule: "random reference graphs over 1..9 relation ids (DAGs, cycles, self loops, missing histories, several versions with different members, non-relation members, repeated members) x request lists with repeats and ids without history x stop after k Next calls by Close or by cancelling the parent context; " +
+			"plus chains 90..209 relations deep (one in 250 cases); " +
 			"non-trivial = at least 2 histories and at least one relation member edge; distinct = distinct op line",
 		Gen:   c14Gen,
 		Exec:  c14Exec,
